@@ -472,8 +472,13 @@ def check_term(ctx, c):
     cap = n_model + 3
     # ... and stays completed: a batch of zero iterations, then of two, then a single one report "finished" as well
     after = [["iterate_n", "E", 0], ["complete", "E"], ["iterate_n", "E", 2], ["complete", "E"], ["iterate", "E"], ["complete", "E"]]
-    calls = [["new", "E", c["kind"]], ["setup", "E", 0]] + [["iterate", "E"]] * cap + [["complete", "E"]] + after + [["finalize", "E"]]
+    calls = ([["new", "E", c["kind"]], ["setup", "E", 0]] + [["iterate", "E"]] * cap + [["complete", "E"]] + after[:0] + [["output", "E"]] + after +
+             [["output", "E"], ["finalize", "E"],
+              # the package's own driver loop on the same script, silent and with the progress display: both return, with the same records
+              ["simulate", "E", 0, False], ["simulate", "E", 0, True]])
     res = run_job({"scripts": [sc], "calls": calls}, "termination run")
+    out_before, out_after = res[3 + cap]["r"], res[4 + cap + len(after)]["r"]
+    res = res[:3 + cap] + res[4 + cap:]          # (drop the first output: the indices below are those of the plain history)
     rets = [r["r"] for r in res[2:2 + cap]]
     if True in rets[n_model - 1:] or rets[:n_model - 1] != [True] * (n_model - 1):
         first = rets.index(False) + 1 if False in rets else None
@@ -490,6 +495,22 @@ def check_term(ctx, c):
             raise Violation("%s on a %s: a completed simulation does not stay completed: after [%s] %s returns %r" % (
                 c["kind"], c["space"], " ; ".join("%s(%s)" % (x[0], ",".join(map(str, x[2:]))) for x in after[:k]), what, got),
                 key="termination:stays-complete")
+    if out_before != out_after:
+        raise Violation("%s on a %s, policy %s: iterating a completed simulation changed its output: %d records before, %d after [%s]" % (
+            c["kind"], c["space"], c["policy"], len(out_before["t"]), len(out_after["t"]),
+            " ; ".join("%s(%s)" % (x[0], ",".join(map(str, x[2:]))) for x in after)), key="termination:output-changed")
+    n_tail = len(res)
+    sim_silent, sim_progress = res[n_tail - 2], res[n_tail - 1]
+    for nm, r_ in (("print_progress=False", sim_silent), ("print_progress=True", sim_progress)):
+        if "exc" in r_:
+            raise Violation("simulate_script(%s) raised %s" % (nm, r_["exc"]), key="termination:simulate-exception")
+    a_, b_ = sim_silent["r"], sim_progress["r"]
+    if a_["t"] != b_["t"] or (c["kind"] == "euler" and a_["data"] != b_["data"]):
+        raise Violation("%s on a %s: simulate_script records %d samples silently and %d with print_progress=True (times %s vs %s)" % (
+            c["kind"], c["space"], len(a_["t"]), len(b_["t"]), a_["t"][:6], b_["t"][:6]), key="termination:simulate-progress")
+    if a_["t"] != out_before["t"] and c["policy"] != "no_sampling":
+        raise Violation("%s on a %s, policy %s: simulate_script records times %s, the same script driven by iterate() until completion %s" % (
+            c["kind"], c["space"], c["policy"], a_["t"][:8], out_before["t"][:8]), key="termination:simulate-vs-iterate")
 
 
 # ---- known finding D14: engine objects share one native simulation --------------------------------------
